@@ -1,3 +1,4 @@
+import BlockCiphers.Proofs.Kuznyechik
 import BlockCiphers.Proofs.AesFixslice
 import BlockCiphers.Proofs.AesNiBytes
 import BlockCiphers.Proofs.Serpent
@@ -6,9 +7,52 @@ C03 — cipher output is independent of backend, cfg flags and cargo features
 GENERATED statement file (tools/gen_thm.py): every theorem below restates, verbatim, a theorem of a Proofs/ module
 and is proved by applying it.  ONLY property theorems and non-vacuity examples live in Thm/.
 AES: the four software backends agree with each other (soft_backends_agree_N) and, like the AES-NI model (encryptN_bytes), equal FIPS-197;
-Serpent: unrolled = looped.  Kuznyechik backends: pairwise by correspondence only until its model is merged.  Features: no cfg(feature) occurs
+Serpent: unrolled = looped.  Kuznyechik: big_soft = SSE2 = NEON model = compact for all keys and blocks (fused-table lemmas, linearity of L).  Features: no cfg(feature) occurs
 inside any enc/dec/new path except zeroize in Drop (Gen.drops) — checked by running every configuration on the same lines.
 -/
+
+namespace BC.Kuznyechik
+open BC.Spec.Kuznyechik
+/-- C03 (encryption): big_soft = sse2 = neon-model = compact_soft -/
+theorem C03.kuz_backends_encrypt_agree (key : BitVec 256) (b : BitVec 128) :
+    Soft.encrypt_block (Soft.expand_enc_keys key) b = Compact.encrypt_block (Compact.expand key) b ∧
+    Sse2.encrypt_block (Sse2.expand_enc_keys key) b = Compact.encrypt_block (Compact.expand key) b ∧
+    Neon.encrypt_block (Neon.expand_enc_keys key) b = Compact.encrypt_block (Compact.expand key) b :=
+  _root_.BC.Kuznyechik.backends_encrypt_agree key b
+end BC.Kuznyechik
+
+namespace BC.Kuznyechik
+open BC.Spec.Kuznyechik
+/-- C03 (decryption, each table backend with its own pre-transformed keys) -/
+theorem C03.kuz_backends_decrypt_agree (key : BitVec 256) (b : BitVec 128) :
+    Soft.decrypt_block (Soft.inv_enc_keys (Soft.expand_enc_keys key)) b = Compact.decrypt_block (Compact.expand key) b ∧
+    Sse2.decrypt_block (Sse2.inv_enc_keys (Sse2.expand_enc_keys key)) b = Compact.decrypt_block (Compact.expand key) b ∧
+    Neon.decrypt_block (Neon.inv_enc_keys (Neon.expand_enc_keys key)) b = Compact.decrypt_block (Compact.expand key) b :=
+  _root_.BC.Kuznyechik.backends_decrypt_agree key b
+end BC.Kuznyechik
+
+namespace BC.Kuznyechik
+open BC.Spec.Kuznyechik
+/-- the three table backends store the same round keys (as 128-bit little-endian values) -/
+theorem C03.kuz_table_backends_keys_agree (key : BitVec 256) :
+    Soft.expand_enc_keys key = Sse2.expand_enc_keys key ∧ Sse2.expand_enc_keys key = Neon.expand_enc_keys key ∧
+    Soft.inv_enc_keys (Soft.expand_enc_keys key) = Sse2.inv_enc_keys (Sse2.expand_enc_keys key) ∧
+    Sse2.inv_enc_keys (Sse2.expand_enc_keys key) = Neon.inv_enc_keys (Neon.expand_enc_keys key) :=
+  _root_.BC.Kuznyechik.table_backends_keys_agree key
+end BC.Kuznyechik
+
+namespace BC.Kuznyechik
+open BC.Spec.Kuznyechik
+/-- the stored encryption keys of the table backends are the iteration keys K1..K10, byte-reversed; the stored
+decryption keys are K10, L⁻¹(K9), …, L⁻¹(K2), K1, byte-reversed -/
+theorem C03.kuz_table_backends_keys (key : BitVec 256) :
+    Soft.expand_enc_keys key = (Compact.expand key).map rev128 ∧
+    Soft.inv_enc_keys (Soft.expand_enc_keys key) =
+      (let k := Compact.expand key
+       ⟨rev128 k.k9, rev128 (Linv k.k8), rev128 (Linv k.k7), rev128 (Linv k.k6), rev128 (Linv k.k5),
+        rev128 (Linv k.k4), rev128 (Linv k.k3), rev128 (Linv k.k2), rev128 (Linv k.k1), rev128 k.k0⟩) :=
+  _root_.BC.Kuznyechik.table_backends_keys key
+end BC.Kuznyechik
 
 namespace BC.AesSoft
 open BC BC.Spec.Aes
